@@ -2,7 +2,7 @@
 C08 — Each module steps exactly once per own time point, in phase order.
 
 Property theorems only (helper lemmas: Lemmas/Loop.lean; model: Model/Loop.lean).
-`Gen.collectFuncs` (the statement sequence of `Loop.collect_funcs`) and `Gen.timeEps` are regenerated from
+`Gen.loopRows` (the statement sequence of `Loop.collect_funcs`) and `Gen.timeEps` are regenerated from
 /repo/starsim/loop.py and settings.py on every run; the theorems below that mention `Gen.…` are obligations on
 the regenerated table.  Times are `Int` multiples of `time_eps`; all statements are for arbitrary module sets,
 arbitrary strictly increasing time vectors and any key-sorted permutation of the cross product (`IsPlan`),
@@ -19,18 +19,36 @@ open StarsimModel.Loop
     start of step; demographics; disease state updates; connectors; networks; interventions; transmission;
     death resolution; result recording; analyzers; end of step.  Every row belongs to a documented phase. -/
 theorem C08_phase_order_is_documented :
-    compress (Gen.collectFuncs.map phaseOf) = documentedPhases.map some := by decide
+    compress (Gen.loopRows.map phaseOf) = documentedPhases.map some ∧
+    Gen.loopRows = documentedRows := by decide
+
+/-- The table of the shared extractor (`Generated/PhaseOrder.lean`, guards verbatim) lists the same containers and
+    methods in the same order as the variable-abstracted one the model interprets. -/
+theorem C08_tables_agree :
+    Gen.collectFuncs.map (fun r => (r.1, r.2.1)) = Gen.loopRows.map (fun r => (r.1, r.2.1)) := by decide
+
+/-- `Loop.__iadd__`: a function is scheduled on the `abs_tvecs` entry found under the NAME of the object it is bound
+    to (module name, else lower-cased class name) — the model's `schedOwner` — and numbered by its position. -/
+theorem C08_iadd_extracted :
+    Gen.iaddOwnerKey = "parent.name if isinstance(parent, ss.Module) else parent.__class__.__name__.lower()" ∧
+    Gen.iaddFuncOrder = "len(self.funcs)" := by decide
+
+/-- A completed sim refuses `run` before touching anything (so a redundant `run()` cannot move the clocks off their
+    final index; the state machine is C09's `Model/RunState.lean`). -/
+theorem C08_completed_run_guarded :
+    ("run", "self.complete") ∈ Gen.alreadyRunGuards ∧ ("start_step", "self.complete") ∈ Gen.alreadyRunGuards := by
+  decide
 
 /-- Every container expression and guard of the table is one the model interprets. -/
-theorem C08_table_understood : ∀ r ∈ Gen.collectFuncs, contIsSim r ≠ none := by decide
+theorem C08_table_understood : ∀ r ∈ Gen.loopRows, contIsSim r ≠ none := by decide
 
 /-- No function of an owner is collected after the owner's clock-incrementing `finish_step`
     (in particular `sim.finish_step` comes after every `people.*` function, which read the sim's clock). -/
-theorem C08_table_finish_last : tableFinishLast Gen.collectFuncs.zipIdx := by decide
+theorem C08_table_finish_last : tableFinishLast Gen.loopRows.zipIdx := by decide
 
 /-- The sim and every module get an (unguarded) `finish_step`. -/
 theorem C08_table_has_finish :
-    ("sim", "finish_step", "") ∈ Gen.collectFuncs ∧ ("sim.modules", "finish_step", "") ∈ Gen.collectFuncs := by
+    ("sim", "finish_step", "") ∈ Gen.loopRows ∧ ("sim.modules", "finish_step", "") ∈ Gen.loopRows := by
   decide
 
 /-- The tie-break unit: `time_eps = 10⁻⁶`, matching the 6 decimals `round_tvec` keeps (times are integer
@@ -56,9 +74,9 @@ theorem C08_people_follow_sim :
 /-- **Well-formed function list, for every module set**: orders are the positions, a clock-incrementing
     function is the last of its owner's functions, and every owner that has a function has one. -/
 theorem C08_collect_wellformed (mods : List Mod) :
-    let fl := collect Gen.collectFuncs mods
+    let fl := collect Gen.loopRows mods
     Ordered fl fl.length ∧ FinishLast fl ∧
-    (∀ f ∈ fl, ∃ fm ∈ fl, fm.owner = f.owner ∧ fm.finish = true) :=
+    (∀ f ∈ fl, ∃ fm ∈ fl, fm.clock = f.clock ∧ fm.finish = true) :=
   ⟨collect_ordered _ mods, collect_finishLast C08_table_finish_last mods,
    collect_everyOwnerFinishes C08_table_has_finish.1 C08_table_has_finish.2 mods⟩
 
@@ -82,12 +100,12 @@ theorem C08_plan_perm {T : Times} {fl : List Func} {n : Nat} {p : List Entry} (h
     (hO : Ordered fl n) :
     p.Perm (cross T fl) ∧
     (∀ e, e ∈ p ↔ ∃ f ∈ fl, ∃ k, k < T.npts f.owner ∧
-      e = ⟨T.tv f.owner k, f.order, f.owner, f.finish, k, f.row⟩) ∧
+      e = ⟨T.tv f.owner k, f.order, f.owner, f.clock, f.finish, k, f.row⟩) ∧
     (∀ f ∈ fl, ∀ k, k < T.npts f.owner →
-      p.count ⟨T.tv f.owner k, f.order, f.owner, f.finish, k, f.row⟩ = 1) := by
+      p.count ⟨T.tv f.owner k, f.order, f.owner, f.clock, f.finish, k, f.row⟩ = 1) := by
   refine ⟨hp.1, fun e => ?_, fun f hf k hk => ?_⟩
   · rw [hp.1.mem_iff]; exact mem_cross
-  · have hmem : (⟨T.tv f.owner k, f.order, f.owner, f.finish, k, f.row⟩ : Entry) ∈ p :=
+  · have hmem : (⟨T.tv f.owner k, f.order, f.owner, f.clock, f.finish, k, f.row⟩ : Entry) ∈ p :=
       hp.1.mem_iff.2 (mem_cross.2 ⟨f, hf, k, hk, rfl⟩)
     rw [(plan_nodup hp hO).count]; simp [hmem]
 
@@ -121,11 +139,12 @@ theorem C08_plan_unique {T : Times} {fl : List Func} {n : Nat} {p q : List Entry
   intro a b ha hb h1 h2
   exact key_inj hS hO hM (hp.1.subset ha) (hq.1.subset hb) (by omega)
 
-/-- **Clock.** At the invocation of any function of owner `m` scheduled at the `k`-th point of `m`'s time vector,
-    `m`'s clock reads `k` (so `m.now` is the scheduled instant). -/
+/-- **Clock.** At the invocation of any function scheduled at the `k`-th point of its time vector, the clock it
+    reads (`clock`: the module's own, the sim's for `sim.*` and `people.*`) reads `k` — so `owner.now` is the scheduled
+    instant.  `Aligned`: each function is scheduled on a time vector equal to its clock owner's. -/
 theorem C08_clock {T : Times} {fl : List Func} {n : Nat} {p : List Entry} (hp : IsPlan T fl p)
-    (hS : Separated T fl n) (hO : Ordered fl n) (hM : T.StrictMono) (hF : FinishLast fl)
-    (hE : ∀ f ∈ fl, ∃ fm ∈ fl, fm.owner = f.owner ∧ fm.finish = true) :
+    (hS : Separated T fl n) (hO : Ordered fl n) (hM : T.StrictMono) (hF : FinishLast fl) (hA : Aligned T fl)
+    (hE : ∀ f ∈ fl, ∃ fm ∈ fl, fm.clock = f.clock ∧ fm.finish = true) :
     ∀ ec ∈ trace [] p, ec.2 = ec.1.k := by
   rintro ⟨e, c⟩ hec
   obtain ⟨pre, post, hsplit, hc⟩ := trace_mem hec
@@ -133,24 +152,31 @@ theorem C08_clock {T : Times} {fl : List Func} {n : Nat} {p : List Entry} (hp : 
   obtain ⟨f, hf, k, hk, rfl⟩ := mem_cross.1 (hp.1.subset hmem)
   obtain ⟨fm, hfm, how, hfin⟩ := hE f hf
   simp only at hc ⊢
-  have h0 : getClk [] f.owner = 0 := by simp [getClk]
+  have h0 : getClk [] f.clock = 0 := by simp [getClk]
   rw [hc, h0, Nat.zero_add, countP_prefix (plan_strict hp hS hO hM) hsplit, hp.1.countP_eq, ← how,
     countP_cross_finish hF hfm hfin]
+  obtain ⟨hAf1, hAf2⟩ := hA f hf
+  obtain ⟨hAm1, hAm2⟩ := hA fm hfm
+  have hN : T.npts fm.owner = T.npts f.owner := by rw [hAm1, hAf1, how]
+  have htv : ∀ j, j < T.npts f.owner → T.tv fm.owner j = T.tv f.owner j := by
+    intro j hj
+    rw [hAm2 j (hN ▸ hj), hAf2 j hj, how]
   have hcong : (List.range (T.npts fm.owner)).countP
-      (fun j => decide ((⟨T.tv fm.owner j, fm.order, fm.owner, fm.finish, j, fm.row⟩ : Entry).key <
-        (⟨T.tv fm.owner k, f.order, fm.owner, f.finish, k, f.row⟩ : Entry).key)) =
+      (fun j => decide ((⟨T.tv fm.owner j, fm.order, fm.owner, fm.clock, fm.finish, j, fm.row⟩ : Entry).key <
+        (⟨T.tv f.owner k, f.order, f.owner, fm.clock, f.finish, k, f.row⟩ : Entry).key)) =
       (List.range (T.npts fm.owner)).countP (fun j => decide (j < k)) := by
     apply List.countP_congr
     intro j hj
     have hj' : j < T.npts fm.owner := List.mem_range.1 hj
-    have hk' : k < T.npts fm.owner := how ▸ hk
+    have hjf : j < T.npts f.owner := hN ▸ hj'
     have hfo := hO.2 f hf
     have hfmo := hO.2 fm hfm
     have hmax := finish_order_max hO hF hf hfm how.symm hfin
-    have hiff : T.tv fm.owner j + (fm.order : Int) < T.tv fm.owner k + (f.order : Int) ↔ j < k := by
+    have hiff : T.tv fm.owner j + (fm.order : Int) < T.tv f.owner k + (f.order : Int) ↔ j < k := by
+      have hjj := htv j hjf
       rcases Nat.lt_trichotomy j k with hlt | heq | hgt
-      · have h1 := hM fm.owner j k hlt hk'
-        have h2 := hS fm hfm fm hfm j hj' k hk' h1
+      · have h1 := hM f.owner j k hlt hk
+        have h2 := hS fm hfm f hf j hj' k hk (by omega)
         constructor
         · intro _; exact hlt
         · intro _; omega
@@ -158,80 +184,89 @@ theorem C08_clock {T : Times} {fl : List Func} {n : Nat} {p : List Entry} (hp : 
         constructor
         · intro h; omega
         · intro h; omega
-      · have h1 := hM fm.owner k j hgt hj'
-        have h2 := hS fm hfm fm hfm k hk' j hj' h1
+      · have h1 := hM f.owner k j hgt hjf
+        have h2 := hS f hf fm hfm k hk j hj' (by omega)
         constructor
         · intro h; omega
         · intro h; omega
     constructor
     · intro h; exact decide_eq_true (hiff.1 (of_decide_eq_true h))
     · intro h; exact decide_eq_true (hiff.2 (of_decide_eq_true h))
-  rw [how] at hcong ⊢
   rw [hcong, countP_lt_range]
   omega
 
-/-- **Final clocks.** After the plan every owner's clock equals its number of time points; after `Sim.run`'s
-    adjustment it reads the final index `npts − 1`.  (No separation needed.) -/
+/-- **Final clocks.** After the plan every clock equals the number of points of the time vector its `finish_step` is
+    scheduled on (its own, when `Aligned`); after `Sim.run`'s adjustment it reads the final index `npts − 1`.
+    (No separation needed.) -/
 theorem C08_final_clocks {T : Times} {fl : List Func} {p : List Entry} (hp : IsPlan T fl p)
     (hF : FinishLast fl) {fm : Func} (hfm : fm ∈ fl) (hfin : fm.finish = true) :
-    getClk (finalClocks [] p) fm.owner = T.npts fm.owner ∧
-    afterRun (finalClocks [] p) fm.owner = (T.npts fm.owner : Int) - 1 := by
-  have h : getClk (finalClocks [] p) fm.owner = T.npts fm.owner := by
+    getClk (finalClocks [] p) fm.clock = T.npts fm.owner ∧
+    afterRun (finalClocks [] p) fm.clock = (T.npts fm.owner : Int) - 1 := by
+  have h : getClk (finalClocks [] p) fm.clock = T.npts fm.owner := by
     rw [finalClocks_eq, hp.1.countP_eq]
-    have h0 : getClk [] fm.owner = 0 := by simp [getClk]
+    have h0 : getClk [] fm.clock = 0 := by simp [getClk]
     rw [h0, Nat.zero_add]
     have := countP_cross_finish (T := T) hF hfm hfin (fun _ => true)
     simp only [Bool.and_true] at this
     rw [this]; simp
   exact ⟨h, by simp [afterRun, h]⟩
 
-/-- **End to end**, for the code's own function table: for every module set and all strictly increasing,
-    separated time vectors, what `make_plan` builds is time-sorted, phase-sorted within an instant, executes
-    every function with its owner's clock at the scheduled index, and leaves every clock at its final value. -/
-theorem C08_loop (mods : List Mod) (T : Times) (hM : T.StrictMono)
-    (hS : Separated T (collect Gen.collectFuncs mods) (collect Gen.collectFuncs mods).length) :
-    let fl := collect Gen.collectFuncs mods
+/-- **End to end**, for the code's own function table: for every module set with distinct names (none of them
+    `sim` / `people`) and all strictly increasing, separated time vectors (the `people` entry holding the sim's), what
+    `make_plan` builds is time-sorted, phase-sorted within an instant, executes every function with its clock at the
+    scheduled index, and leaves every clock at its owner's number of points. -/
+theorem C08_loop (mods : List Mod) (T : Times) (hN : NamesDistinct mods) (hM : T.StrictMono)
+    (hP : T.npts (mods.length + 1) = T.npts 0 ∧ ∀ k, k < T.npts 0 → T.tv (mods.length + 1) k = T.tv 0 k)
+    (hS : Separated T (collect Gen.loopRows mods) (collect Gen.loopRows mods).length) :
+    let fl := collect Gen.loopRows mods
     let p := makePlan T fl
     p.Pairwise (fun a b => a.time ≤ b.time) ∧
     p.Pairwise (fun a b => a.time = b.time → a.order < b.order) ∧
     (∀ ec ∈ trace [] p, ec.2 = ec.1.k) ∧
-    (∀ f ∈ fl, getClk (finalClocks [] p) f.owner = T.npts f.owner) := by
+    (∀ f ∈ fl, getClk (finalClocks [] p) f.clock = T.npts f.clock) := by
   intro fl p
   obtain ⟨hO, hF, hE⟩ := C08_collect_wellformed mods
   have hp := C08_makePlan_isPlan T fl
-  refine ⟨C08_plan_time_sorted hp hS hO, C08_plan_phase_sorted hp hS hO hM, C08_clock hp hS hO hM hF hE, ?_⟩
+  have hA : Aligned T fl := collect_aligned hN T hP
+  refine ⟨C08_plan_time_sorted hp hS hO, C08_plan_phase_sorted hp hS hO hM, C08_clock hp hS hO hM hF hA hE, ?_⟩
   intro f hf
   obtain ⟨fm, hfm, how, hfin⟩ := hE f hf
-  rw [← how]
-  exact (C08_final_clocks hp hF hfm hfin).1
+  rw [← how, (C08_final_clocks hp hF hfm hfin).1, (hA fm hfm).1]
+
+/-- With distinct names every function of the code's table is scheduled on its own `abs_tvecs` entry
+    (`people.*` on the `people` entry, reading the sim's clock). -/
+theorem C08_names_partial (mods : List Mod) (hN : NamesDistinct mods) :
+    ∀ f ∈ collect Gen.loopRows mods, f.owner = f.clock ∨ (f.owner = mods.length + 1 ∧ f.clock = 0) :=
+  collect_sched hN
 
 /-- The executable checks the driver evaluates on every correspondence case imply the hypotheses of the theorems. -/
 theorem C08_checks_sound {T : Times} {fl : List Func} {n : Nat} :
     (separatedFast T fl n = true → Separated T fl n) ∧ (separatedB T fl n = true → Separated T fl n) ∧
-    (∀ owners, strictMonoB T owners = true → ∀ m ∈ owners, ∀ i j, i < j → j < T.npts m → T.tv m i < T.tv m j) :=
-  ⟨separatedFast_sound, separatedB_sound, fun _ h => strictMonoB_sound h⟩
+    (∀ owners, strictMonoB T owners = true → ∀ m ∈ owners, ∀ i j, i < j → j < T.npts m → T.tv m i < T.tv m j) ∧
+    (alignedB T fl = true → Aligned T fl) :=
+  ⟨separatedFast_sound, separatedB_sound, fun _ h => strictMonoB_sound h, alignedB_sound⟩
 
 /-! ### The excluded point of `Separated` is real (known finding C08-tiebreak) -/
 
-/-- Module set of the witness: one intervention (owner 1) in an otherwise empty sim (owner 0). -/
-def witnessMods : List Mod := [⟨.interventions, false⟩]
+/-- Module set of the witness: one intervention (owner 1) in an otherwise empty sim (owner 0; `people` = owner 2). -/
+def witnessMods : List Mod := [⟨.interventions, false, 2⟩]
 /-- Sim `start=2000, dt=1` (points 0 and 10⁶ eps); the intervention starts 2·10⁻⁶ later (`start=2000.000002`). -/
-def witnessTimes : Times := Times.ofLists [[0, 1000000], [2, 1000002]]
+def witnessTimes : Times := Times.ofLists [[0, 1000000], [2, 1000002], [0, 1000000]]
 
 /-- **Tie-break counterexample.** With two owners 2 eps apart (and 9 functions) *no* key-sorted permutation of the
-    cross product is in non-decreasing time order: `p.start_step` of the later owner (time 2, order 2, key 4)
-    must run before `sim`-time functions of key ≥ 5 (time 0).  The configuration is not `Separated`. -/
+    cross product is in non-decreasing time order: `p.step` of the later owner (time 2, order 2, key 4) must run
+    before `sim.finish_step` (time 0, order 8).  The configuration is not `Separated`. -/
 theorem C08_tiebreak_counterexample :
-    (∀ p, IsPlan witnessTimes (collect Gen.collectFuncs witnessMods) p →
+    (∀ p, IsPlan witnessTimes (collect Gen.loopRows witnessMods) p →
       ¬ p.Pairwise (fun a b => a.time ≤ b.time)) ∧
-    separatedB witnessTimes (collect Gen.collectFuncs witnessMods)
-      (collect Gen.collectFuncs witnessMods).length = false := by
+    separatedB witnessTimes (collect Gen.loopRows witnessMods)
+      (collect Gen.loopRows witnessMods).length = false := by
   refine ⟨?_, by decide⟩
   intro p hp hsorted
-  have ha : (⟨2, 2, 1, false, 0, 6⟩ : Entry) ∈ p :=
-    hp.1.mem_iff.2 (mem_cross.2 ⟨⟨1, false, 2, 6⟩, by decide, 0, by decide, by decide⟩)
-  have hb : (⟨0, 8, 0, true, 0, 14⟩ : Entry) ∈ p :=
-    hp.1.mem_iff.2 (mem_cross.2 ⟨⟨0, true, 8, 14⟩, by decide, 0, by decide, by decide⟩)
+  have ha : (⟨2, 2, 1, 1, false, 0, 6⟩ : Entry) ∈ p :=
+    hp.1.mem_iff.2 (mem_cross.2 ⟨⟨1, 1, false, 2, 6⟩, by decide, 0, by decide, by decide⟩)
+  have hb : (⟨0, 8, 0, 0, true, 0, 14⟩ : Entry) ∈ p :=
+    hp.1.mem_iff.2 (mem_cross.2 ⟨⟨0, 0, true, 8, 14⟩, by decide, 0, by decide, by decide⟩)
   rcases pairwise_trichotomy (hp.2.and hsorted) _ ha _ hb with h | h | h
   · exact absurd h (by decide)
   · exact absurd h.2 (by decide)
@@ -240,28 +275,54 @@ theorem C08_tiebreak_counterexample :
 /-- …and the executed times really interleave (in eps): the real code executes exactly this order
     (`sim.start_step@0, p.start_step@2e-6, people.step_die@0, p.step@2e-6, people.update_results@0, …`). -/
 theorem C08_tiebreak_times :
-    ((makePlanI witnessTimes (collect Gen.collectFuncs witnessMods)).map (·.time)).take 9 =
+    ((makePlanI witnessTimes (collect Gen.loopRows witnessMods)).map (·.time)).take 9 =
       [0, 2, 0, 2, 0, 2, 0, 2, 0] := by decide
+
+/-! ### Colliding module names (known finding C08-name-collision) -/
+
+/-- An intervention and an analyzer with ONE name (`nameId 2`): the intervention has 5 own time points, the analyzer 3. -/
+def collideMods : List Mod := [⟨.interventions, false, 2⟩, ⟨.analyzers, false, 2⟩]
+def collideTimes : Times :=
+  Times.ofLists [[0, 1000000, 2000000], [0, 500000, 1000000, 1500000, 2000000], [0, 1000000, 2000000],
+    [0, 1000000, 2000000]]
+
+/-- **Name-collision counterexample.** Both modules are scheduled on the analyzer's entry (written last by
+    `collect_abs_tvecs`): the intervention's functions run 3 times instead of once per each of its 5 time points —
+    its clock ends at 3, not 5 — although the configuration is `Separated`.  `NamesDistinct` fails. -/
+theorem C08_name_collision_counterexample :
+    getClk (finalClocks [] (makePlanI collideTimes (collect Gen.loopRows collideMods))) 1 = 3 ∧
+    collideTimes.npts 1 = 5 ∧
+    (∀ f ∈ collect Gen.loopRows collideMods, f.clock = 1 → f.owner = 2) ∧
+    alignedB collideTimes (collect Gen.loopRows collideMods) = false ∧
+    separatedB collideTimes (collect Gen.loopRows collideMods) (collect Gen.loopRows collideMods).length = true := by
+  decide
+
+/-- A module named `people` captures the `people` entry: `people.step_die` etc. follow that module's time vector. -/
+theorem C08_people_name_counterexample :
+    ∀ f ∈ collect Gen.loopRows [⟨.interventions, false, 1⟩], f.row = 8 → f.owner = 1 ∧ f.clock = 0 := by decide
 
 /-! ### Non-vacuity: concrete, non-trivial configurations meet the hypotheses -/
 
 /-- A mixed-timestep configuration: sim yearly (3 points), a disease twice per year, a network, an
-    intervention starting one year late, an analyzer. -/
+    intervention starting one year late, an analyzer ending beyond the sim's last point; `people` = owner 6. -/
 def exampleMods : List Mod :=
-  [⟨.demographics, false⟩, ⟨.networks, false⟩, ⟨.diseases, true⟩, ⟨.interventions, false⟩, ⟨.analyzers, false⟩]
+  [⟨.demographics, false, 2⟩, ⟨.networks, false, 3⟩, ⟨.diseases, true, 4⟩, ⟨.interventions, false, 5⟩,
+   ⟨.analyzers, false, 6⟩]
 def exampleTimes : Times :=
   Times.ofLists [[0, 1000000, 2000000], [0, 1000000, 2000000], [0, 1000000, 2000000],
-    [0, 500000, 1000000, 1500000, 2000000], [1000000, 2000000], [0, 2000000]]
+    [0, 500000, 1000000, 1500000, 2000000], [1000000, 2000000], [0, 2000000, 4000000], [0, 1000000, 2000000]]
 
-example : separatedB exampleTimes (collect Gen.collectFuncs exampleMods)
-    (collect Gen.collectFuncs exampleMods).length = true := by decide
-example : strictMonoB exampleTimes [0, 1, 2, 3, 4, 5] = true := by decide
-example : (collect Gen.collectFuncs exampleMods).length = 26 := by decide
-example : (makePlanI exampleTimes (collect Gen.collectFuncs exampleMods)).length = 80 := by decide
+example : (exampleMods.map (·.nameId)).Pairwise (· ≠ ·) ∧ ∀ m ∈ exampleMods, 2 ≤ m.nameId := by decide
+example : separatedB exampleTimes (collect Gen.loopRows exampleMods)
+    (collect Gen.loopRows exampleMods).length = true := by decide
+example : strictMonoB exampleTimes [0, 1, 2, 3, 4, 5, 6] = true := by decide
+example : alignedB exampleTimes (collect Gen.loopRows exampleMods) = true := by decide
+example : (collect Gen.loopRows exampleMods).length = 26 := by decide
+example : (makePlanI exampleTimes (collect Gen.loopRows exampleMods)).length = 84 := by decide
 /-- the clocks observed along the example's plan are the scheduled indices (a test of one instance; the theorem
     `C08_clock` covers all) -/
-example : (trace [] (makePlanI exampleTimes (collect Gen.collectFuncs exampleMods))).all
+example : (trace [] (makePlanI exampleTimes (collect Gen.loopRows exampleMods))).all
     (fun ec => ec.2 == ec.1.k) = true := by decide
-example : finalClocks [] (makePlanI exampleTimes (collect Gen.collectFuncs exampleMods)) = [3, 3, 3, 5, 2, 2] := by decide
+example : finalClocks [] (makePlanI exampleTimes (collect Gen.loopRows exampleMods)) = [3, 3, 3, 5, 2, 3] := by decide
 
 end StarsimModel.C08
